@@ -142,7 +142,7 @@ def mark_noinline(txt, names):
     return '\n'.join(out)
 
 
-def seq_inline(ll, wd, keep=()):
+def seq_inline(ll, wd, keep=(), unroll=False):
     """engine 'cbmc-seq': inline everything into the thread roots with LLVM's own inliner, so that a
     root contains all its atomic operations / blocking calls directly and can be made resumable"""
     txt = open(ll).read()
@@ -150,11 +150,31 @@ def seq_inline(ll, wd, keep=()):
     txt = re.sub(r'\boptnone\b', '', txt)
     if keep:
         txt = mark_noinline(txt, set(keep))
+    # LLVM does not inline through aliases (C1/D1 constructor/destructor aliases): call the aliasee
+    aliases = {}
+    for m in re.finditer(r'^@("[^"]+"|[^\s"]+) = [^\n]*\balias [^\n]*\* @("[^"]+"|[^\s",)]+)\s*$', txt, re.M):
+        aliases[m.group(1)] = m.group(2)
+    if aliases:
+        def sub(m):
+            return '@' + aliases[m.group(1)] + m.group(2)
+        pat = re.compile(r'@(' + '|'.join(re.escape(a) for a in sorted(aliases, key=len, reverse=True)) + r')(\()')
+        txt = pat.sub(sub, txt)
+    passes = 'cgscc(inline),function(sroa,early-cse,simplifycfg)'
+    extra = []
+    if unroll:
+        # opt-in (spec key 'seq_unroll'): fully unroll constant-trip-count loops of the real code (e.g.
+        # `for i < N` over sub-objects) so that the indices are constants; clang -O1 marks every loop
+        # llvm.loop.unroll.disable, which is dropped here.  Spin loops have no constant trip count and stay.
+        txt = txt.replace('!"llvm.loop.unroll.disable"', '!"vf.unroll.disable.removed"')
+        passes = ('cgscc(inline),function(sroa,early-cse,simplifycfg,loop-simplify,lcssa,loop(loop-rotate),'
+                  'loop-unroll,instcombine,simplifycfg)')
+        extra = ['-unroll-threshold=100000', '-unroll-runtime=false', '-unroll-allow-partial=false',
+                 '-unroll-allow-peeling=false']
     pre = os.path.join(wd, 'h_pre.ll')
     open(pre, 'w').write(txt)
     out = os.path.join(wd, 'h_inl.ll')
-    rc, o, e, t = sh(['opt-14', '-S', '-passes=cgscc(inline),function(sroa,early-cse,simplifycfg)',
-                      '-inline-threshold=100000000', pre, '-o', out], timeout=300)
+    rc, o, e, t = sh(['opt-14', '-S', '-passes=' + passes,
+                      '-inline-threshold=100000000'] + extra + [pre, '-o', out], timeout=300)
     if rc != 0:
         raise Inconclusive('opt (inlining for the sequentialised encoding) failed: ' + e[-800:])
     return out
@@ -338,7 +358,8 @@ def prepare_instance(inst, wd):
     ll = lift(inst, wd)
     seq = inst.get('engine') == 'cbmc-seq'
     if seq:
-        ll = seq_inline(ll, wd, keep=list((inst.get('intercept') or {}).keys()) + inst.get('no_inline', []))
+        ll = seq_inline(ll, wd, keep=list((inst.get('intercept') or {}).keys()) + inst.get('no_inline', []),
+                        unroll=bool(inst.get('seq_unroll')))
     try:
         mod = llir.load(ll)
         roots = list(inst.get('roots', ['vf_main']))
